@@ -131,7 +131,8 @@ func (i *Interp) binop(op token.Token, t types.Type, x, y value) value {
 	if !xs && !ys {
 		switch op {
 		case token.EQL, token.NEQ:
-			if isSymbolic(x) || isSymbolic(y) || isView(x) || isView(y) {
+			_, xc := x.(nilChan)
+			if xc || isSymbolic(x) || isSymbolic(y) || isView(x) || isView(y) {
 				r := i.equalsV(t, x, y)
 				if op == token.NEQ {
 					return i.notV(r)
@@ -299,6 +300,8 @@ func (i *Interp) equalsV(t types.Type, x, y value) value {
 			return xv.isNil() && yv == nil
 		}
 		return false
+	case nilChan:
+		return true
 	case *value:
 		if yv, ok := y.(viewPtr); ok {
 			return yv.isNil() && xv == nil
